@@ -44,7 +44,7 @@ def id_init(n):
 
 
 def case_key(c):
-    return json.dumps([c["op"], c["script"], c["data"], c["init"], c["cap0"], c["n"], c["pieces"], c.get("ff", 0)],
+    return json.dumps([c["op"], c["script"], c["data"], c["init"], c["cap0"], c["n"], c["pieces"], c.get("ff", 0), c.get("fmtid")],
                       separators=(",", ":"))
 
 
@@ -152,6 +152,21 @@ def judge(chk, cases, outs, tag, batch=6000, workers=4, par=2):
             bad += b
             conf |= cf
     return sorted(bad), conf
+
+
+NFMT = 18
+
+
+def fmt_cases():
+    """write_fmt over real format_args! universes (char arguments, fill characters, {:?} escapes,
+    nested write!): the driver fills in data / pieces from core's own formatting (format!)."""
+    A = lambda k: {"t": "a", "k": k}
+    E, Z = {"t": "eintr", "k": 0}, {"t": "zero", "k": 0}
+    R = lambda e: {"t": "err", "k": e}
+    scripts = [[], [A(1)] * 8, [A(2)] * 6, [A(3)] * 5, [E, A(1), E, A(2)], [R(5)], [A(1), R(5)], [A(2), A(1), R(11)],
+               [Z], [A(1), Z], [A(1), A(1), A(1), R(5)], [E, E, E], [A(1), A(2), A(1), A(2), A(1), R(28)]]
+    return [{"op": "write_fmt", "script": sc, "data": [], "init": [], "cap0": 0, "n": 0, "pieces": [], "ff": 0, "fmtid": i}
+            for i in range(NFMT) for sc in scripts]
 
 
 # ------------------------------------------------------------------------------------------
@@ -410,7 +425,7 @@ def _run(chk, tier):
     core.log("TLC: %d behaviours of %d cases (%.1fs)" % (len(behaviours), len(cases), time.time() - chk.t0))
     # 2. the real helpers on every generated case and on seeded random long scripts
     rng = random.Random(chk.seed)
-    rcases = random_cases(rng, 3000 if tier == "quick" else 20000)
+    rcases = fmt_cases() + random_cases(rng, 3000 if tier == "quick" else 20000)
     ngen = len(cases)
     allcases = cases + rcases
     allouts = run_driver(chk, bindir, allcases, "all")
@@ -423,6 +438,9 @@ def _run(chk, tier):
         allouts = [allouts[i] for i in keep]
         ngen = len(cases)
         allcases = cases + rcases
+    for c, o in zip(allcases, allouts):
+        if "fmtid" in c:             # expected bytes and fragments as produced by core's formatting
+            c["data"], c["pieces"] = o["data"], o["pieces"]
     outs, routs = allouts[:ngen], allouts[ngen:]
     core.log("driver done (%.1fs)" % (time.time() - chk.t0))
     # 3. TLC judges the recorded runs
@@ -459,8 +477,10 @@ def _run(chk, tier):
     for i in rbad:
         c, o = rcases[i], routs[i]
         chk.violate({"op": c["op"], "kind": classify(c, o, None)},
-                    "%s(init len %d cap %d, n %d) on random script [%s]: outcome err=%s count=%s |buf|=%d%s rejected by IoHelpersTrace" % (
-                        c["op"], len(c["init"]), c["cap0"], c["n"], script_str(c["script"]), o["err"], o["rn"], len(o["buf"]),
+                    "%s(init len %d cap %d, n %d) on %s script [%s]: outcome err=%s count=%s |buf|=%d%s rejected by IoHelpersTrace" % (
+                        c["op"], len(c["init"]), c["cap0"], c["n"],
+                        ("format_args universe #%d (expected %d bytes %r, fragments %s);" % (c["fmtid"], len(c["data"]), bytes(c["data"]).decode("utf-8", "replace"), c["pieces"])) if "fmtid" in c else "random",
+                        script_str(c["script"]), o["err"], o["rn"], len(o["buf"]),
                         " PANIC " + o["panic"] if o["panic"] else ""),
                     {"case": c, "observed": o})
     # anti-vacuity: falsified copies of accepted runs must all be rejected by the judge
@@ -552,6 +572,8 @@ def replay(path):
         print("verdict:", "REJECTED again" if chk.violations else "not reproduced in this re-run (timing dependent)")
         return 1 if chk.violations else 0
     outs = run_driver(chk, bindir, [rp["case"]], "replay")
+    if "fmtid" in rp["case"]:
+        rp["case"]["data"], rp["case"]["pieces"] = outs[0]["data"], outs[0]["pieces"]
     bad, conf = judge(chk, [rp["case"]], outs, "replay")
     print("case:", json.dumps(rp["case"]))
     print("observed now:", json.dumps(outs[0]))
